@@ -505,7 +505,7 @@ def judge_pixels(j, f, case, spec, buf, trace, full_filename):
                             j.bad('pix_metadata', blk, 'data_range',
                                   f'row {W.ROWS[i]}: stored [{got[i, 0]!r}, {got[i, 1]!r}], converted rows span '
                                   f'[{float(want[i, 0])!r}, {float(want[i, 1])!r}]',
-                                  mechanism='data_range', row=W.ROWS[i])
+                                  mechanism='data_range')
             else:
                 ctx.count('undecided:data_range_of_zero_pixels')
     # ---- pixel block, leniently (whatever part of it is in the file)
@@ -531,7 +531,7 @@ def judge_pixels(j, f, case, spec, buf, trace, full_filename):
     if avail < n:
         j.bad('pixels_missing', 'pix/data_wrap', 'pixels',
               f'{n - avail} of {n} pixels are not in the file (chunk_size={case["chunk"] or 8192})',
-              mechanism=W.pix_mechanism(trace), missing=int(n - avail))
+              mechanism=W.pix_mechanism(trace))
     ctx.event('content:pixels', int(avail) * 9)
     for i, name in enumerate(W.ROWS):
         exact = rows_exact[i][:avail]
@@ -556,7 +556,7 @@ def judge_pixels(j, f, case, spec, buf, trace, full_filename):
             j.bad('pixel_value', 'pix/data_wrap', name,
                   f'pixel {k}: stored {got[k]!r}, supplied {rows_raw[i][k]!r} {unit_in} = '
                   f'{float(exact[k])!r} {W.ROW_UNITS[i]} -> float32 {want32[k]!r}',
-                  mechanism=mech, input_unit=str(unit_in), input_dtype=spec['pix']['rows'][name]['dtype'])
+                  mechanism=mech, converted=bool(unit_in != W.ROW_UNITS[i]))
 
 
 def judge_content(ctx, case, spec, target, buf, trace):
